@@ -29,6 +29,9 @@ type Chi struct {
 
 // CDF computes the value of the cumulative density function at x.
 func (c Chi) CDF(x float64) float64 {
+	if x < 0 {
+		return 0
+	}
 	return mathext.GammaIncReg(c.K/2, (x*x)/2)
 }
 
@@ -52,6 +55,9 @@ func (c Chi) LogProb(x float64) float64 {
 		return math.Inf(-1)
 	}
 	lg, _ := math.Lgamma(c.K / 2)
+	if c.K == 1 {
+		return -(x*x)/2 - (c.K/2-1)*math.Ln2 - lg
+	}
 	return (c.K-1)*math.Log(x) - (x*x)/2 - (c.K/2-1)*math.Ln2 - lg
 }
 
